@@ -121,9 +121,10 @@ pub fn run(s: &mut Src, ctx: &mut Ctx) -> Verdict {
     }
     cfg.max_depth = cfg.max_depth.min(4);
     let with_rete = s.chance(1, 3);
-    let kb = gen_kb(s, 5, None);
-    let st0 = crate::bc::gen_store(s, &kb);
+    let mut kb = gen_kb(s, 5, None);
+    let mut st0 = crate::bc::gen_store(s, &kb);
     let steps = gen_history(s, &kb, &cfg);
+    apply_str_style(s, &mut kb, &mut st0);
     if probe_only() {
         return Verdict::Pass;
     }
